@@ -1,4 +1,5 @@
 """C12 — entering a program line by line interactively equals running it whole (structural clauses)."""
+import os, sys
 from .cfg import CFG
 from .facts import callee_name
 from .interp import Events, normal_cfg
@@ -62,11 +63,66 @@ def rule_state(ctx, R):
     if not R.anchor(line_loop is not None, "line_loop", "the prompt loop"):
         return
     head, loop = line_loop
-    roles = Roles(b, fb, param_roles={1: "TERM", 2: "OPT"}, overrides={sl: "SESSION"})
+    # execute() may be called in a private helper that was spliced in (fn run_line(.., state, line) -> Result<state>): the
+    # local handed to execute is then the helper's parameter, which received the session state by a plain move.  The
+    # session variable is the one initialised before the prompt loop; the helper's parameter is a second member of the
+    # family, and the value handed over (`passed`) may come back unchanged (a line without commands).
+    def _through(l, n=0):
+        """the named state local a compiler temporary was moved from"""
+        ds_ = vars_.defs.get(l, [])
+        if l not in st and n < 8 and len(ds_) == 1 and ds_[0][0] == "assign":
+            r_ = ds_[0][3]["r"]
+            if r_["k"] == "use" and r_["x"].get("k") in ("move", "copy") and not r_["x"]["p"]["proj"]:
+                return _through(r_["x"]["p"]["l"], n + 1)
+        return l
+
+    outer, passed, handover = sl, [], set()
+    for kind_, db_, di_, pl_ in vars_.defs.get(sl, []):
+        if kind_ == "assign" and pl_["r"]["k"] == "use" and pl_["r"]["x"].get("k") in ("move", "copy") and not pl_["r"]["x"]["p"]["proj"]:
+            x_ = _through(pl_["r"]["x"]["p"]["l"])
+            if x_ in st and x_ != sl and any(d_[1] not in loop for d_ in vars_.defs.get(x_, [])) and all(d_[1] in loop for d_ in vars_.defs.get(sl, [])):
+                outer = x_
+                passed.append(org.of_rvalue(pl_["r"], db_, di_))
+                handover.add(pl_["r"]["x"]["p"]["l"])
+    members = [outer] + ([sl] if sl != outer else [])
+    sks = {(sk[0], m) for m in members}
+    roles = Roles(b, fb, param_roles={1: "TERM", 2: "OPT"}, overrides={m: "SESSION" for m in members})
+
+    def _exec_ok(x):
+        if not (x[0] == "call" and x[1] == EXECUTE):
+            return False
+        a3 = roles.of_origin(x[2][3])
+        return a3 in ("SESSION", "LOOPVAR") or "SESSION" in a3 or "execute::execute" in a3 or "UnOptState::new" in a3 or (len(members) > 1 and _leaf_ok(x[2][3], 1))
+
+    def _leaf_ok(o, depth=0):
+        """family case: the value is the state as it was handed to the helper, or what execute() returned for it"""
+        if o in passed:
+            return True
+        if o[0] == "phi":
+            return all(_leaf_ok(x, depth) for x in o[1])
+        if o[0] == "cycle":
+            return depth > 0 or o[1] in handover or o[1] in members
+        if o[0] in ("try", "continue") and len(o) > 1 and isinstance(o[1], tuple):
+            return _exec_ok(o[1]) or _leaf_ok(o[1], depth + 1)
+        return False
+
     n_in = 0
-    for d in vars_.defs.get(sl, []):
+    for d in [d_ for m in members for d_ in vars_.defs.get(m, [])]:
         kind, db, di, payload = d
         inside = db in loop
+        if len(members) > 1 and kind == "assign":
+            rr = payload["r"]
+            if rr["k"] == "use" and rr["x"].get("k") in ("move", "copy") and not rr["x"]["p"]["proj"] and _through(rr["x"]["p"]["l"]) in members:
+                continue  # the hand-over itself
+            o = org.of_rvalue(rr, db, di)
+            if o != ("call", NEW, ()):
+                n_in += 1 if inside else 0
+                ok = _leaf_ok(o)
+                # a value that arrives through another state-typed local (the unwrapped result): that local's definitions too
+                if ok and rr["k"] == "use" and rr["x"].get("k") in ("move", "copy") and not rr["x"]["p"]["proj"] and _through(rr["x"]["p"]["l"]) in st:
+                    ok = all(k2 == "assign" and _leaf_ok(org.of_rvalue(p2["r"], b2, i2)) for k2, b2, i2, p2 in vars_.defs.get(_through(rr["x"]["p"]["l"]), []))
+                R.check(ok, "state:threaded:%d" % n_in, "inside the prompt loop the state is only replaced by the result of executing a command on it (execute() called in a helper): %s" % roles.of_origin(o)[:120], payload["span"]["at"])
+                continue
         if kind == "call":
             n = callee_name(payload["f"], fb)
             if not inside:
@@ -90,7 +146,7 @@ def rule_state(ctx, R):
     # nothing else writes the state: no &mut borrow handed to anything but execute (by value)
     for bi, t in b.calls():
         for a in t["args"]:
-            if vars_.root_key(a) == sk and callee_name(t["f"], fb) != EXECUTE:
+            if vars_.root_key(a) in sks and callee_name(t["f"], fb) != EXECUTE:
                 R.fail("state:other_use:%s" % callee_name(t["f"], fb), "the session state is handed to something other than execute(): %s" % callee_name(t["f"], fb), t["span"]["at"])
     # no in-place mutation of the session state: it is never mutably borrowed or stored into field by field
     # (everything that changes it is the by-value round trip through execute(), or a fresh UnOptState::new())
@@ -100,9 +156,9 @@ def rule_state(ctx, R):
         for s in blk["stmts"]:
             if s["k"] != "assign":
                 continue
-            if s["r"]["k"] == "ref" and s["r"]["mut"] and s["r"]["p"]["l"] == sl:
+            if s["r"]["k"] == "ref" and s["r"]["mut"] and s["r"]["p"]["l"] in members:
                 R.fail("state:mut_borrow", "the session state is mutably borrowed (in-place modification instead of execute()'s result or a fresh state)", s["span"]["at"])
-            if s["p"]["l"] == sl and s["p"]["proj"]:
+            if s["p"]["l"] in members and s["p"]["proj"]:
                 R.fail("state:field_store", "a field of the session state is overwritten in place", s["span"]["at"])
     # the `clear` arm is selected by comparing the trimmed line with "clear"
     consts = set()
@@ -125,7 +181,7 @@ def rule_state(ctx, R):
                 if "K'clear'" in lab and "str::trim(" in lab and lab.endswith("=1"):
                     clear_edges.append((gb, s_))
     resets = []
-    for d in vars_.defs.get(sl, []):
+    for d in vars_.defs.get(outer, []):
         kind, db, di, payload = d
         if db in loop and ((kind == "call" and callee_name(payload["f"], fb) == NEW) or (kind == "assign" and org.of_rvalue(payload["r"], db, di) == ("call", NEW, ()))):
             resets.append(db)
@@ -253,3 +309,56 @@ def _clones(ctx, R):
 
 
 RULES.append(("C12.CLONE", "snapshots and copies are complete: Clone of states, commands, areas and numbers copies every field (shared with C01.CLONE)", _clones))
+
+
+class _Only:
+    """a recorder proxy that forwards the obligations whose key starts with one of `keys` (and every lost anchor,
+    so the rule still fails closed) and drops the rest: a clause of another property's rule, not the whole rule"""
+
+    def __init__(self, R, keys):
+        self._R, self._keys = R, tuple(keys)
+
+    def _mine(self, key):
+        return key.startswith(self._keys)
+
+    def analyse(self, what):
+        self._R.analyse(what)
+
+    def note(self, s):
+        self._R.note(s)
+
+    def ok(self, key, desc, where=None):
+        if self._mine(key):
+            self._R.ok(key, desc, where)
+
+    def fail(self, key, desc, where=None, detail=None, kind="violation"):
+        if self._mine(key) or kind == "anchor-lost":
+            self._R.fail(key, desc, where, detail, kind)
+
+    def check(self, cond, key, desc, where=None, detail=None):
+        if cond:
+            self.ok(key, desc, where)
+        else:
+            self.fail(key, desc, where, detail)
+        return cond
+
+    def anchor(self, cond, key, desc, where=None):
+        return self._R.anchor(cond, key, desc, where)
+
+    def floor(self, key, actual, counted, desc, slack=0.6):
+        self._R.floor(key, actual, counted, desc, slack)
+
+
+def rule_parse_local(ctx, R):
+    """A line parses to the same commands whether it is parsed alone or as part of the whole file.  Two clauses of the
+    parser are necessary for that and visible in its shape: (1) the acceptance test of a start syllable compares two
+    positions counted in the same unit (a byte offset against a character index makes the verdict depend on how much
+    non-ASCII text precedes, that is, on the lines entered before); (2) both partially built area trees are reset at
+    every command start (nothing of an earlier command, possibly of an earlier line, leaks into the next one)."""
+    from . import p_c04
+    p_c04.rule_defs(ctx, _Only(R, ("parse:index_kind",)))
+    p_c04.rule_reset(ctx, R)
+
+
+RULES.append(("C12.PARSE", "a line parses alone as it parses inside the whole file: start-syllable acceptance compares positions of one unit; area trees are reset at every command start (clauses of C04.DEFS and C04.RESET)", rule_parse_local))
+
